@@ -36,24 +36,10 @@ def cb(hexs):
 
 
 def nid(v):
-    t = v["mask"] & 15
-    ns, n = v["ns"], v["nid"]
-    if t == 0:
-        return "(NTwoByte %d %d)" % (ns, n)
-    if t == 1:
-        return "(NFourByte %d %d)" % (ns, n)
-    if t == 2:
-        return "(NNumeric %d %d)" % (ns, n)
-    if t == 3:
-        return "(NString %d %s)" % (ns, cb(v["bid"]))
-    if t == 4:
-        g = v["gid"]
-        if g is None:
-            return "(NGuid %d None)" % ns
-        return "(NGuid %d (Some (G %d %d %d %s)))" % (ns, g["d1"], g["d2"], g["d3"], cb(g["d4"]))
-    if t == 5:
-        return "(NOpaque %d %s)" % (ns, cb(v["bid"]))
-    return "(NInvalid %d)" % t
+    """the NodeID struct as observed (mask incl. flags), viewed through the model's `view` (type = mask & 15)"""
+    g = v["gid"]
+    gs = "None" if g is None else "(Some (G %d %d %d %s))" % (g["d1"], g["d2"], g["d3"], cb(g["d4"]))
+    return "(view (R %d %d %d %s %s))" % (v["mask"], v["ns"], v["nid"], cb(v["bid"]), gs)
 
 
 def xid(x):
